@@ -2,7 +2,7 @@
 concrete reference images (validates the spec functions against images with known fields)."""
 import datetime, io, os, sys
 sys.path.insert(0, os.path.dirname(os.path.abspath(__file__)))
-from common import Component, emit, rng, TIER, ROOT
+from common import Component, emit, rng, TIER, ROOT, time_limit, CaseTimeout
 ns = {}
 exec(open(os.path.join(ROOT, "contracts", "spec", "gens.py")).read(), ns)
 from dissect.cobaltstrike import pe
